@@ -201,6 +201,51 @@ def mutants_of(src):
                             bb = getattr(x, fld)
                             bb[k], bb[k + 1] = bb[k + 1], bb[k]
                         emit("swap stmts: %s <-> %s" % (ast.unparse(s1)[:40], ast.unparse(s2)[:40]), n, ap)
+        if EXTRA and isinstance(n, ast.Call) and n.keywords and not in_raise(n, parents):
+            for k, kw in enumerate(n.keywords):
+                if kw.arg is None:
+                    continue
+                def ap(x, t, k=k):
+                    del x.keywords[k]
+                emit("drop kwarg %s: %s" % (kw.arg, ast.unparse(n)[:60]), n, ap)
+        if EXTRA and isinstance(n, ast.Constant) and isinstance(n.value, str) and id(n) not in docs and not in_raise(n, parents):
+            v = n.value
+            reps = []
+            if v and len(v) <= 3 and set(v) <= set("rwabt+"):
+                reps = [v.replace("b", "")] if "b" in v else [v + "b"]
+                if "w" in v:
+                    reps.append(v.replace("w", "a"))
+            elif v in ("little", "big"):
+                reps = ["big" if v == "little" else "little"]
+            for rep in reps:
+                if rep:
+                    def ap(x, t, rep=rep):
+                        x.value = rep
+                    emit("str %r->%r" % (v, rep), n, ap)
+        if EXTRA and isinstance(n, ast.Slice):
+            for fld in ("lower", "upper"):
+                if getattr(n, fld) is not None:
+                    def ap(x, t, fld=fld):
+                        setattr(x, fld, ast.BinOp(left=getattr(x, fld), op=ast.Add(), right=ast.Constant(1)))
+                    emit("slice %s+1: %s" % (fld, ast.unparse(n)[:50]), n, ap)
+        if EXTRA and isinstance(n, ast.Expr) and isinstance(n.value, ast.Call) and not isinstance(parents.get(id(n)), (ast.Module, ast.ClassDef)):
+            def ap(x, t):
+                for p_ in ast.walk(t):
+                    for fld in ("body", "orelse", "finalbody"):
+                        b = getattr(p_, fld, None)
+                        if isinstance(b, list) and x in b:
+                            b.insert(b.index(x), copy.deepcopy(x))
+                            return
+                return False
+            emit("dup stmt: %s" % ast.unparse(n)[:70], n, ap)
+        if EXTRA and isinstance(n, ast.If) and not all(isinstance(s, (ast.Raise, ast.Pass)) for s in n.body):
+            def ap(x, t):
+                x.body = [ast.Pass()]
+            emit("empty arm: if %s" % ast.unparse(n.test)[:60], n, ap)
+            if n.orelse and not (len(n.orelse) == 1 and isinstance(n.orelse[0], ast.If)):
+                def ap2(x, t):
+                    x.orelse = []
+                emit("drop else of: if %s" % ast.unparse(n.test)[:60], n, ap2)
         if isinstance(n, ast.Return) and n.value is None and isinstance(parents.get(id(n)), ast.If):
             def ap(x, t):
                 for p in ast.walk(t):
